@@ -440,6 +440,8 @@ def c17_oracle(full, io, b):
             m = re.match(r"^[A-Za-z][A-Za-z0-9+.\-]*://([^/?#]*)", dec(sv))
             if m:
                 hp = m.group(1).rpartition("@")[2]
+                if ("[" in hp or "]" in hp) and not re.fullmatch(r"\[[^\[\]]*\](:[^\[\]]*)?", hp):
+                    continue          # malformed brackets (the listed C03 / C09 / C11 finding): where the port text sits cannot be read off the string
                 rest = hp.partition("]")[2] if hp.startswith("[") else hp[len(hp.partition(":")[0]):]
                 exp_shown = None if (e_ is None or e_ == dflt) else e_
                 def _pv(t):
@@ -471,7 +473,21 @@ def c17_oracle(full, io, b):
         a, c = v.get(src, "explicit_port"), v.get(h, "explicit_port")
         if a is None or c is None or a.startswith("!") or c.startswith("!") or a == c or v.n_of(h, "explicit_port") in flagged:
             continue
-        out.append(fail(v, h, "explicit_port", f"{f[3]}() changed the written port: explicit_port {pretty_out(a)} -> {pretty_out(c)}", "explicit-port-derived",
+        cls = "explicit-port-derived"
+        root = src
+        for _ in range(8):                  # walk up to the string the chain started from
+            cf = v.creator_fields(root)
+            if cf[0] in ("mod", "rt", "hr", "hre") and len(cf) > 2 and cf[2].isdigit():
+                root = int(cf[2])
+            else:
+                break
+        cf = v.creator_fields(root)
+        if cf[0] == "new":
+            m0 = re.match(r"^[^/?#]*?//([^/?#]*)", dec(cf[3]).lstrip("".join(chr(i) for i in range(33))).replace("\t", "").replace("\n", "").replace("\r", ""))
+            hostinfo = (m0.group(1) if m0 else "").rpartition("@")[2]
+            if ("[" in hostinfo or "]" in hostinfo) and not re.match(r"^\[[^\[\]]*\](:[^\[\]]*)?\Z", hostinfo):
+                cls = "malformed-brackets"  # same root as F-C03 / F-C09 / F-C11-bracket: the pre-computed split is not the split of the stored authority
+        out.append(fail(v, h, "explicit_port", f"{f[3]}() changed the written port: explicit_port {pretty_out(a)} -> {pretty_out(c)}", cls,
                         also=[v.n_of(src, "explicit_port")]))
     return out
 
